@@ -353,7 +353,7 @@ def concat_trace(pp, case):
 
 # ---- from_dict ---------------------------------------------------------------------------------------------
 def gen_scalar(rng):
-    return rng.choice(["a", "", "x y", 0, 1, -3, 2.5, None, True, False, "é"])
+    return rng.choice(["a", "", "x y", 0, 1, -3, 2.5, None, True, False, "é", b"ab", b"", (1, 2) if False else "t"])
 
 
 def gen_list(rng, depth=0):
